@@ -4,6 +4,8 @@
 #include "common/proto_main.hpp"
 #include "Stream/MemoryWriter.h"
 #include "Stream/DynamicMemoryWriter.h"
+#include "Stream/FileWriter.h"
+#include <unistd.h>
 #include <fstream>
 #include <functional>
 #include <memory>
@@ -22,14 +24,19 @@ static const Tr* CUR[64]; static int CURLEN = 0, CURSTEP = 0;
 static std::string describe_walk(int upto) { std::string p; for (int i = 0; i <= upto && i < CURLEN; ++i) p += CUR[i]->op + "(" + CUR[i]->a + ") "; return p; }
 static void describe_for_crash() { if (!CURLEN) return; const Tr& t = *CUR[CURSTEP < CURLEN ? CURSTEP : CURLEN - 1]; Proto::sanitize(Proto::g_site, sizeof Proto::g_site, site_of(t)); Proto::sanitize(Proto::g_detail, sizeof Proto::g_detail, "n=" + std::to_string(N) + " walk: " + describe_walk(CURSTEP)); }
 static long long STEPS = 0;
-struct Obj { std::vector<unsigned char> mem; std::unique_ptr<MemoryWriter> fixed; std::unique_ptr<DynamicMemoryWriter> grow; };
-static Obj fresh(long long k) { Obj o; if (MACHINE == "fixed") { o.mem.assign(N + 2 * G, 0); for (int i = 0; i < G; ++i) { o.mem[i] = 0xC1; o.mem[G + N + i] = 0xC2; } o.fixed = std::make_unique<MemoryWriter>(o.mem.data() + G, N); } else {
+struct Obj { std::vector<unsigned char> mem; std::unique_ptr<MemoryWriter> fixed; std::unique_ptr<DynamicMemoryWriter> grow; std::unique_ptr<FileWriter> file; };
+static std::string FILEPATH;
+static Obj fresh(long long k) { Obj o;
+	if (MACHINE == "file") { ::unlink(FILEPATH.c_str());          // every second walk runs on a writer that was moved from the one that opened the file
+		if (k % 2) { FileWriter w(FILEPATH); o.file = std::make_unique<FileWriter>(std::move(w)); } else o.file = std::make_unique<FileWriter>(FILEPATH);
+		if (o.file->GetFilename() != FILEPATH) Proto::mismatch("file.GetFilename/small", "value", o.file->GetFilename()); return o; }
+	if (MACHINE == "fixed") { o.mem.assign(N + 2 * G, 0); for (int i = 0; i < G; ++i) { o.mem[i] = 0xC1; o.mem[G + N + i] = 0xC2; } o.fixed = std::make_unique<MemoryWriter>(o.mem.data() + G, N); } else {
 		// the preallocation hint of the second constructor is not part of the specification's state: GrowInit is the empty writer whatever the hint
 		static const std::size_t HINTS[] = {0, 1, 7, 64, 4096}; const int v = (int)(k % 6);
 		if (v == 0) o.grow = std::make_unique<DynamicMemoryWriter>(); else o.grow = std::make_unique<DynamicMemoryWriter>(HINTS[v - 1]); }
 	return o; }
 static bool apply(Obj& o, const Tr& t, int step) {
-	++STEPS; CURSTEP = step; BidirectionalWriter& w = o.fixed ? static_cast<BidirectionalWriter&>(*o.fixed) : static_cast<BidirectionalWriter&>(*o.grow);
+	++STEPS; CURSTEP = step; BidirectionalWriter& w = o.fixed ? static_cast<BidirectionalWriter&>(*o.fixed) : o.file ? static_cast<BidirectionalWriter&>(*o.file) : static_cast<BidirectionalWriter&>(*o.grow);
 	bool ok = true; static unsigned char src[64];
 	try {
 		if (t.op == "Write") { memset(src, t.fromStamp, sizeof src); w.Write(src, (std::size_t)t.av); }    // for non-small sizes the source is (much) shorter than announced: a correct writer refuses before touching it
@@ -41,6 +48,8 @@ static bool apply(Obj& o, const Tr& t, int step) {
 	std::vector<int> got;
 	if (o.fixed) { for (int i = 0; i < N; ++i) got.push_back(o.mem[G + i]); for (int i = 0; i < G; ++i) if (o.mem[i] != 0xC1 || o.mem[G + N + i] != 0xC2) { Proto::mismatch(site, "guard-zone-written", where()); return false; }
 		if (len != (unsigned long long)N) { Proto::mismatch(site, "length", where()); return false; } }
+	else if (o.file) { std::ifstream f(FILEPATH, std::ios::binary); std::vector<unsigned char> b((std::istreambuf_iterator<char>(f)), std::istreambuf_iterator<char>()); got.assign(b.begin(), b.end());     // Length() has just synchronised the stream with the file
+		if (len != got.size()) { Proto::mismatch(site, "length", where() + " Length() = " + std::to_string((long long)len) + ", the file holds " + std::to_string(got.size())); return false; } }
 	else { auto r = o.grow->GetReader(); std::vector<unsigned char> b(r.Length()); if (!b.empty()) r.Read(b.data(), b.size()); got.assign(b.begin(), b.end()); if (len != got.size()) { Proto::mismatch(site, "length", where()); return false; } }
 	if (pos != (unsigned long long)t.pos) { Proto::mismatch(site, ok ? "state" : "state-after-failure", where() + " pos=" + std::to_string((long long)pos) + " want " + std::to_string(t.pos)); return false; }
 	if (got != t.cells) { Proto::mismatch(site, ok ? "content" : "state-after-failure", where() + " content " + json(got).dump() + " want " + json(t.cells).dump()); return false; }
@@ -49,6 +58,7 @@ int main(int argc, char** argv) {
 	Proto::init(argc, argv); Proto::g_describe = describe_for_crash; std::string relPath; int depth = 2; long randomWalks = 0; int randomLen = 40;
 	for (int i = 1; i + 1 < argc; ++i) { std::string a = argv[i], v = argv[i + 1];
 		if (a == "--rel") relPath = v; else if (a == "--machine") MACHINE = v; else if (a == "--n") N = atoi(v.c_str()); else if (a == "--depth") depth = atoi(v.c_str()); else if (a == "--random") randomWalks = atol(v.c_str()); else if (a == "--len") randomLen = atoi(v.c_str());
+		else if (a == "--file") FILEPATH = v;
 		else if (a == "--skip-sites") { std::string x; for (char c : v + ",") { if (c == ',') { if (!x.empty()) SKIP_SITES.insert(x); x.clear(); } else x.push_back(c); } } }
 	int initId = -1;
 	{ std::ifstream f(relPath); std::string line; while (std::getline(f, line)) { if (line.empty()) continue; json j = json::parse(line); int from = state_id(j["f"]); int to = state_id(j["t"]); if (initId < 0 && j["f"][0] == 0 && j["f"][2] == 1) initId = from;
